@@ -38,10 +38,11 @@ type ProcSpec struct {
 // SrcSpec scripts one source: the sizes of the batches its Read calls return,
 // its own processor chain and what Read does once exhausted (v2 only: io.EOF).
 type SrcSpec struct {
-	Batches []int      `json:"batches"`
-	Procs   []ProcSpec `json:"procs"`
-	EOF     bool       `json:"eof"`
-	SlowAck bool       `json:"slowAck"` // Source.Ack is released only when nothing else is parked (most of the time)
+	Batches  []int      `json:"batches"`
+	Procs    []ProcSpec `json:"procs"`
+	EOF      bool       `json:"eof"`
+	SlowRead bool       `json:"slowRead"` // every Read after the first is released only when nothing else is parked
+	SlowAck  bool       `json:"slowAck"`  // Source.Ack is released only when nothing else is parked (most of the time)
 }
 
 // DstSpec scripts one destination.
@@ -53,6 +54,8 @@ type DstSpec struct {
 	Chunks    []int      `json:"chunks"`    // sizes of successive ack replies (cyclic; empty = everything pending)
 	EmptyAcks int        `json:"emptyAcks"` // MALFORMED stream only: the first n Ack() replies are empty
 	Slow      bool       `json:"slow"`      // released only when nothing else is parked (most of the time)
+	Hold      bool       `json:"hold"`      // DIRECTED family: from its HoldFrom-th Write call on, this destination's Write gate
+	HoldFrom  int        `json:"holdFrom"`  // stays closed until the control action (cancel / stop) has fired
 }
 
 // DlqSpec scripts the dead-letter queue.
@@ -267,6 +270,7 @@ func inSet(set [][2]int, s, k int) bool {
 type gate struct {
 	label string
 	slow  bool
+	held  bool // not eligible before Unhold
 	ch    chan struct{}
 }
 
@@ -279,6 +283,7 @@ type Sched struct {
 	choices  []int
 	step     int
 	free     bool
+	unheld   bool
 	released []string
 }
 
@@ -289,12 +294,45 @@ func NewSched(choices []int) *Sched {
 // Park blocks until the scheduler releases this call, the context ends or abort
 // is closed. It returns ctx.Err() / context.Canceled in the latter cases.
 func (s *Sched) Park(ctx context.Context, label string, slow bool, abort <-chan struct{}) error {
+	return s.park(ctx, label, slow, false, abort)
+}
+
+// ParkHeld is Park for a gate that stays closed until Unhold was called.
+func (s *Sched) ParkHeld(ctx context.Context, label string, abort <-chan struct{}) error {
+	return s.park(ctx, label, false, true, abort)
+}
+
+// Unhold makes held gates eligible (the control action has fired).
+func (s *Sched) Unhold() {
+	s.mu.Lock()
+	s.unheld = true
+	s.mu.Unlock()
+	select {
+	case s.wake <- struct{}{}:
+	default:
+	}
+}
+
+// NEligible is the number of parked calls the scheduler may release now.
+func (s *Sched) NEligible() int {
+	s.mu.Lock()
+	defer s.mu.Unlock()
+	n := 0
+	for _, g := range s.parked {
+		if !g.held || s.unheld {
+			n++
+		}
+	}
+	return n
+}
+
+func (s *Sched) park(ctx context.Context, label string, slow, held bool, abort <-chan struct{}) error {
 	s.mu.Lock()
 	if s.free {
 		s.mu.Unlock()
 		return ctx.Err()
 	}
-	g := &gate{label: label, slow: slow, ch: make(chan struct{})}
+	g := &gate{label: label, slow: slow, held: held, ch: make(chan struct{})}
 	s.parked = append(s.parked, g)
 	s.mu.Unlock()
 	select {
@@ -372,15 +410,20 @@ func (s *Sched) ReleaseOne(settle time.Duration) bool {
 	cand := make([]int, 0, len(s.parked))
 	if c%8 != 7 {
 		for i, g := range s.parked {
-			if !g.slow {
+			if !g.slow && (!g.held || s.unheld) {
 				cand = append(cand, i)
 			}
 		}
 	}
 	if len(cand) == 0 {
-		for i := range s.parked {
-			cand = append(cand, i)
+		for i, g := range s.parked {
+			if !g.held || s.unheld {
+				cand = append(cand, i)
+			}
 		}
+	}
+	if len(cand) == 0 {
+		return false
 	}
 	i := cand[(c/8)%len(cand)]
 	g := s.parked[i]
@@ -512,8 +555,9 @@ func (x *run) drive(done <-chan struct{}, fire func(kind string), stuck func() s
 				stopIssued = true
 			}
 			fire(ctl.Kind)
+			x.sched.Unhold()
 		}
-		if x.sched.NParked() > 0 {
+		if x.sched.NEligible() > 0 {
 			idleSince = time.Time{}
 			x.sched.ReleaseOne(settle)
 			continue
@@ -534,6 +578,7 @@ func (x *run) drive(done <-chan struct{}, fire func(kind string), stuck func() s
 				stopIssued = true
 			}
 			fire(ctl.Kind)
+			x.sched.Unhold()
 		}
 		if stuck != nil && time.Since(idleSince) > 150*time.Millisecond && time.Since(lastStuckCheck) > 100*time.Millisecond {
 			lastStuckCheck = time.Now()
